@@ -293,8 +293,24 @@ func checkC20Message(w *World, r *Report, fn *ssa.Function, emits []*ssa.Call) {
 		if len(e.Call.Args) < 4 {
 			continue
 		}
-		msg, ok := e.Call.Args[3].(*ssa.Phi)
-		if !ok {
+		// the choice is a phi in the closure, or made by the returns of a helper of the module (ipStr := clientAddr(c))
+		type msgCase struct {
+			facts []Fact
+			val   ssa.Value
+		}
+		var cases []msgCase
+		if msg, ok := e.Call.Args[3].(*ssa.Phi); ok {
+			for i, edge := range msg.Edges {
+				cases = append(cases, msgCase{factsOnEdge(msg.Block().Preds[i], msg.Block()), edge})
+			}
+		} else if hc, ok := e.Call.Args[3].(*ssa.Call); ok && hc.Call.StaticCallee() != nil && w.InModule(hc.Call.StaticCallee()) && len(hc.Call.StaticCallee().Blocks) > 0 {
+			eachInstr(hc.Call.StaticCallee(), func(in ssa.Instruction) {
+				if rt, ok := in.(*ssa.Return); ok && len(rt.Results) == 1 {
+					cases = append(cases, msgCase{factsAtBlock(rt.Block()), rt.Results[0]})
+				}
+			})
+		}
+		if len(cases) == 0 {
 			ru.Fail("message of the record", w.Pos(e.Pos()), "a three-way choice", "message is "+valStr(e.Call.Args[3]))
 			continue
 		}
@@ -305,8 +321,8 @@ func checkC20Message(w *World, r *Report, fn *ssa.Function, emits []*ssa.Call) {
 		}
 		verdict := map[string]caseVerdict{}
 		var order []string
-		for i, edge := range msg.Edges {
-			facts := factsOnEdge(msg.Block().Preds[i], msg.Block())
+		for _, mc := range cases {
+			facts, edge := mc.facts, mc.val
 			errNil, isNoResolver, known := false, false, false
 			for _, f := range facts {
 				if bo, ok := f.Cond.(*ssa.BinOp); ok && isNilConst(bo.Y) && isErrorType(bo.X.Type()) {
